@@ -593,5 +593,11 @@ BadEntriesShort = _mk_bad('BadEntriesShort', lambda o: (tuple(o.kids), None, tup
 BadEntriesLong = _mk_bad('BadEntriesLong', lambda o: (tuple(o.kids), None, tuple(range(len(o.kids) + 1))))
 BadEntriesNonIter = _mk_bad('BadEntriesNonIter', lambda o: (tuple(o.kids), None, 5))
 BadNonTuple = _mk_bad('BadNonTuple', lambda o: 42)
+# malformed AND falsy entries: a truthiness test (`entries or range(n)`) would take them for "no entries given"
+BadEntriesEmptyTuple = _mk_bad('BadEntriesEmptyTuple', lambda o: (tuple(o.kids) or (Leaf('pad'),), None, ()))
+BadEntriesEmptyStr = _mk_bad('BadEntriesEmptyStr', lambda o: (tuple(o.kids) or (Leaf('pad'),), None, ''))
+BadEntriesZero = _mk_bad('BadEntriesZero', lambda o: (tuple(o.kids), None, 0))
+BadEntriesFalse = _mk_bad('BadEntriesFalse', lambda o: (tuple(o.kids), None, False))
 BadRaises = _mk_bad('BadRaises', lambda o: (_ for _ in ()).throw(KeyError('boom')))
-BAD_CLASSES = (Bad1Tuple, Bad4Tuple, BadChildrenNonIter, BadEntriesShort, BadEntriesLong, BadEntriesNonIter, BadNonTuple, BadRaises)
+BAD_CLASSES = (Bad1Tuple, Bad4Tuple, BadChildrenNonIter, BadEntriesShort, BadEntriesLong, BadEntriesNonIter, BadNonTuple, BadRaises,
+               BadEntriesEmptyTuple, BadEntriesEmptyStr, BadEntriesZero, BadEntriesFalse)
